@@ -392,6 +392,11 @@ func decodeLen(highThreeBits, lowFiveBits byte, additional []byte) (int, error) 
 		length = uint64(lowFiveBits)
 	}
 	if highThreeBits == mapMajorType {
+		// A map holds two items per declared pair. Check the declared count
+		// before doubling it: 2^63 pairs would wrap around to a length of 0.
+		if length >= MaxArrayDecodeLength {
+			return 0, fmt.Errorf("length exceeds max size: %d", length)
+		}
 		length *= 2
 	}
 	if length > math.MaxInt || length >= MaxArrayDecodeLength {
